@@ -144,6 +144,35 @@ Theorem C26_job_context_shipped_partial : forall root path, wf root ->
   job_context shipped root path = Some (spec_job_context root path).
 Proof. exact job_context_shipped_simple. Qed.
 
+(** ** contexts computed after ancestors concluded (fork_thread, rejected parent + cond/seq):
+    whatever the 'concluded' flags along the ancestor chain, the context is the merge over the
+    whole chain -- because Job.clear() keeps the parent link ([clear_keeps_parent], extracted by
+    the translator) *)
+Theorem C26_late_context_any_flags : forall c root rev_path, clear_keeps_parent c = true ->
+  late_context c root rev_path = job_context c root (rev (map snd rev_path)).
+Proof. exact late_context_eq. Qed.
+
+Theorem C26_late_context_fixed : forall root rev_path, wf root ->
+  Forall (fun fc => Forall wf_call (snd fc)) rev_path ->
+  late_context fixed root rev_path = Some (late_spec root rev_path).
+Proof. exact late_context_fixed. Qed.
+
+Theorem C26_late_context_fixed_uc : forall root rev_path, wf root ->
+  Forall (fun fc => Forall wf_call (snd fc)) rev_path ->
+  late_context fixed_uc root rev_path = Some (late_spec root rev_path).
+Proof. exact late_context_fixed_uc. Qed.
+
+Theorem C26_late_context_shipped_partial : forall root rev_path, wf root ->
+  Forall (fun fc => Forall wf_call (snd fc) /\ simple_calls (snd fc)) rev_path ->
+  late_context shipped root rev_path = Some (late_spec root rev_path).
+Proof. exact late_context_shipped_simple. Qed.
+
+(** and it is not, for a clear() that drops the parent link *)
+Theorem C26_late_dropping_refuted : exists root rev_path, wf root /\
+  Forall (fun fc => Forall wf_call (snd fc)) rev_path /\
+  late_context dropping root rev_path <> Some (late_spec root rev_path).
+Proof. exact late_dropping_refuted. Qed.
+
 (** ** non-vacuity: a three-level job tree with nested overrides meets the hypotheses and the
     documented results are not trivial *)
 Definition nv_cfg : value := VDict [(ka, VDict [(kb, VAtom (AInt 1)); (kc, VAtom (AInt 2))])].
@@ -190,3 +219,7 @@ Print Assumptions C26_tree_holds_fixed_uc.
 Print Assumptions C26_tree_shipped_partial.
 Print Assumptions C26_job_context_fixed.
 Print Assumptions C26_nonvacuous.
+Print Assumptions C26_late_context_any_flags.
+Print Assumptions C26_late_context_fixed.
+Print Assumptions C26_late_context_shipped_partial.
+Print Assumptions C26_late_dropping_refuted.
